@@ -384,4 +384,33 @@ theorem rrd_rld (s : Cpu) (b : RecBus) :
   refine ⟨by simp [Spec.rrd], by simp [Spec.rrd], ?_⟩
   funext x; split <;> simp_all
 
+/-! ## Non-vacuity -/
+
+/-- `8000: 00 08` = the operation bytes of RLC B; RRC B (behind the CB prefixes) and `8010: 34 12 34 12` = the
+operands of LD (1234),HL; LD HL,(1234) -/
+def pairBus : RecBus :=
+  { mem := fun a => if a = 0x8001 then 0x08 else if a = 0x8010 then 0x34 else if a = 0x8011 then 0x12 else
+      if a = 0x8012 then 0x34 else if a = 0x8013 then 0x12 else 0 }
+
+/-- the hypotheses of `rlc_rrc_r` and `ld_nn_hl_round_trip` are satisfiable, and the conclusions are what
+they say on concrete values (B = 0x81: RLC gives 0x03 with carry, RRC brings 0x81 back) -/
+example :
+    decodeCB (pairBus.mem 0x8000) = .rot 0 .b ∧ decodeCB (pairBus.mem (0x8000 + 1)) = .rot 1 .b ∧
+    (execCB ({ pc := 0x8000, b := 0x81 } : Cpu) pairBus).1.b = 0x03 ∧
+    (execCB (execCB ({ pc := 0x8000, b := 0x81 } : Cpu) pairBus).1 (execCB ({ pc := 0x8000, b := 0x81 } : Cpu) pairBus).2).1.b = 0x81 ∧
+    (let s : Cpu := { pc := 0x8010, h := 0xAB, l := 0xCD }
+     let sb1 := exec .hw .none .ldNNHL s pairBus
+     word sb1.2.mem sb1.1.pc = word pairBus.mem s.pc ∧ sb1.2.mem 0x1234 = 0xCD ∧ sb1.2.mem 0x1235 = 0xAB ∧
+     (exec .hw .none .ldHLNN { sb1.1 with h := 0, l := 0 } sb1.2).1.hl = 0xABCD) := by decide
+
+/-- PUSH BC; POP BC and EX (SP),HL on concrete values; INC/DEC of 0x7F passes through the overflow -/
+example :
+    let s : Cpu := { sp := 0x9000, b := 0x12, c := 0x34, h := 0x56, l := 0x78, f := 0x01 }
+    (exec .hw .none (.push .bc) s pairBus).2.mem 0x8FFF = 0x12 ∧
+    (exec .hw .none (.push .bc) s pairBus).2.mem 0x8FFE = 0x34 ∧
+    (exec .hw .none (.pop .bc) (exec .hw .none (.push .bc) s pairBus).1 (exec .hw .none (.push .bc) s pairBus).2).1 = s ∧
+    (exec .hw .none .exSPHL s pairBus).2.mem 0x9000 = 0x78 ∧ (exec .hw .none .exSPHL s pairBus).1.hl = 0 ∧
+    (exec .hw .none (.inc .a) ({ a := 0x7F } : Cpu) pairBus).1.f = 0x94 ∧ incDecF 0x7F 0 = 0x3E ∧
+    negTwiceF 0x80 = 0x87 ∧ cplTwiceF 0xFF 0x00 = 0x3A := by decide
+
 end ZxVerif.C01Laws
